@@ -313,6 +313,27 @@ def dropped_objects(chk, repo):
     chk.need('R08.5', n, 1, 'in-place configured parameters')
 
 
+def query_atoms(chk, repo, rule):
+    """ReadSymbols returns rdqueries query atoms on every path (its callers
+    call ExpandQuery on the result; a plain Chem.Atom has no such method:
+    AttributeError out of Read)."""
+    rs = repo.func(MQR, 'MolQueryReader.ReadSymbols')
+    bad = []
+    nret = 0
+    for p in sym.summarize(rs):
+        if p.outcome[0] != 'return':
+            continue
+        nret += 1
+        v = p.outcome[1]
+        if not (is_call(v) and (sym.Evaluator()._call_name(v[1]) or ''
+                                ).startswith('rdqueries.')):
+            bad.append(show(v)[:80])
+    chk.ob(rule, not bad and nret >= 5, MQR, rs, key='query-atoms',
+           what='every atom ReadSymbols returns is an rdqueries query atom '
+                '(the callers call ExpandQuery on it)',
+           found='; '.join(bad))
+
+
 def run(chk, repo, tier):
     strict, g = grammar_ir.load(repo)
     negation_tables(chk, repo)
@@ -361,22 +382,7 @@ def run(chk, repo, tier):
                        what='%s.%s stores nothing (no cache across '
                             'molecules)' % (c.name, s_.name),
                        found='; '.join(describe(m) for m in muts))
-    # ---- R08.7 provenance: ReadSymbols returns query atoms ------------------
-    rs = repo.func(MQR, 'MolQueryReader.ReadSymbols')
-    bad = []
-    nret = 0
-    for p in sym.summarize(rs):
-        if p.outcome[0] != 'return':
-            continue
-        nret += 1
-        v = p.outcome[1]
-        if not (is_call(v) and (sym.Evaluator()._call_name(v[1]) or ''
-                                ).startswith('rdqueries.')):
-            bad.append(show(v)[:80])
-    chk.ob('R08.7', not bad and nret >= 5, MQR, rs, key='query-atoms',
-           what='every atom ReadSymbols returns is an rdqueries query atom '
-                '(the callers call ExpandQuery on it)',
-           found='; '.join(bad))
+    query_atoms(chk, repo, 'R08.7')
     # the match pipeline reads every constraint container the constructor
     # creates (def-use completeness)
     init = repo.func(MQ, 'MolQuery.__init__')
